@@ -38,6 +38,7 @@ type Ctx struct {
 	seamKeys []*types.Func
 	pdoms    map[*ssa.Function]*PostDom
 	astFn    map[*ssa.Function]ast.Node
+	Memo     sync.Map // per-program results that several rules share (keyed by a string)
 }
 
 // InScopePath says whether a package path belongs to the container proper (not tests, not demo mains).
@@ -158,6 +159,37 @@ func Load(repo, tier string) (*Ctx, error) {
 				continue
 			}
 			impls := c.Implementors(iface)
+			if len(impls) == 0 {
+				// a narrowed view of an external collaborator: the one concrete type in-scope code boxes into it
+				var boxed []types.Type
+				for _, fn := range c.Scope {
+					for _, b := range fn.Blocks {
+						for _, in := range b.Instrs {
+							mi, ok := in.(*ssa.MakeInterface)
+							if !ok || !types.Identical(mi.Type(), tn.Type()) {
+								continue
+							}
+							dup := false
+							for _, t := range boxed {
+								dup = dup || types.Identical(t, mi.X.Type())
+							}
+							if !dup {
+								boxed = append(boxed, mi.X.Type())
+							}
+						}
+					}
+				}
+				if len(boxed) == 1 {
+					for i := 0; i < iface.NumMethods(); i++ {
+						m := iface.Method(i)
+						if fn := c.Prog.LookupMethod(boxed[0], m.Pkg(), m.Name()); fn != nil {
+							seams.Store(m, fn)
+							c.seamKeys = append(c.seamKeys, m)
+						}
+					}
+				}
+				continue
+			}
 			if len(impls) != 1 {
 				continue
 			}
@@ -440,6 +472,9 @@ func IsCallTo(com *ssa.CallCommon, fn *ssa.Function) bool {
 // e.g. "(reflect.Value).Set", "(*sync.WaitGroup).Wait", "sort.Slice".
 func IsExtCall(com *ssa.CallCommon, full string) bool {
 	cal := Callee(com)
+	if cal == nil && com.IsInvoke() {
+		cal = Seam(com) // the external collaborator behind a narrowed view
+	}
 	return cal != nil && cal.String() == full
 }
 
